@@ -126,7 +126,7 @@ PROPS = {
         families=[("routes", 120, 4000, 14), ("reload", 30, 800, 12)],
         corr_fields={"values", "heads", "exchange", "local", "remote", "load", "len", "loadq", "rev"},
         nontrivial=nt_multiwriter_merge,
-        rule="PRNG scripts on 2-4 replicas: writes, manual syncs, announcements delivered late/twice/out of order, exchange-on-join (delivered, dropped, duplicated), link cuts and heals, instance restarts; final phase heals every link and exchanges heads for every ordered pair; every replica must then list every acknowledged write; non-trivial = >=2 writers, >=1 merged batch, >=3 entries",
+        rule="PRNG scripts on 2-4 replicas: writes, manual syncs, announcements delivered late/twice/out of order, exchange-on-join (delivered, dropped, duplicated), link cuts and heals, instance restarts; in a third of the scenarios the stores subscribe through the library's own pubsubcoreapi adapter over the scripted network (joins found by its polling diff, messages through its filter and buffer); final phase heals every link and exchanges heads for every ordered pair; every replica must then list every acknowledged write; non-trivial = >=2 writers, >=1 merged batch, >=3 entries",
         trusted_base=["set-level network model (Model/Net.lean); scripted pubsub/direct channel/bitswap replace libp2p (runtime not modelled)"],
         assumptions=["blocks held by a connected peer are fetchable; no rejected entry, no cancelled request (boundary with C10/C11)"],
     ),
@@ -180,7 +180,8 @@ PROPS = {
         theorems=["Orbit.C20.poll_reports_exact_difference", "Orbit.C20.reported_changes_replay_to_last_snapshot",
                   "Orbit.C20.each_change_reported_once", "Orbit.C20.own_messages_filtered", "Orbit.C20.channel_name_symmetric",
                   "Orbit.C20.channel_name_identifies_pair", "Orbit.C20.frame_roundtrip", "Orbit.C20.length_prefix_roundtrip",
-                  "Orbit.C20.oversize_refused", "Orbit.C20.accepted_length_within_limit", "Orbit.C20.tied_to_go_text"],
+                  "Orbit.C20.oversize_refused", "Orbit.C20.accepted_length_within_limit", "Orbit.C20.tied_to_go_text",
+                  "Orbit.C20.every_watcher_is_told_about_present_peers", "Orbit.C20.shared_membership_hid_present_peers_from_a_later_watcher"],
         families=[("transport", 100, 4000, 8), ("oneonone", 3, 40, 1)],
         corr_fields={"tevents"},
         nontrivial=lambda lines: sum(1 for l in lines if l.startswith("op tpeers") and ";" in l) >= 1 or any(l.startswith("op tone") for l in lines),
@@ -319,11 +320,11 @@ MANIFEST_TEXT = {
         note="The bytes -> structure step of encoding/json / CBOR is observed, not modelled (partial there); trusted: Lean kernel + standard axioms, the extractor, the hand-written decode model validated by the garbage family.",
         technique="Lean 4 proof (total outcome functions with explicit panic; BitVec frame guard tied by translator) with crash-attributing differential harness"),
     "C20": dict(
-        text="Kernel-checked theorems: peersDiff reports exactly new\\old and old\\new; for every snapshot sequence the reported changes replay to the last snapshot and each change is reported once; own messages are filtered and every remote payload delivered once in order; the pairwise channel name is symmetric and identifies the pair; uvarint and frame round-trip for every payload up to the limit; oversized frames are refused; limit and guard tied to the Go text. The real pubsubcoreapi, oneonone and directchannel code is driven over scripted pubsub/host fakes and compared with the model line by line.",
+        text="Kernel-checked theorems: peersDiff reports exactly new\\old and old\\new; for every snapshot sequence the reported changes replay to the last snapshot and each change is reported once; own messages are filtered and every remote payload delivered once in order; the pairwise channel name is symmetric and identifies the pair; uvarint and frame round-trip for every payload up to the limit; oversized frames are refused; limit and guard tied to the Go text. The real pubsubcoreapi, oneonone and directchannel code is driven over scripted pubsub/host fakes and compared with the model line by line; in a third of the membership scripts a SECOND watcher of the same topic starts after the first ended (a store closed and opened again): it must be told about the peers that are there (finding F24, fix: commit; decide-checked witness for the old shared list). The routes and reload families additionally run a third of their scenarios with the stores subscribed through the real pubsubcoreapi adapter over the scripted network.",
         note="Partial: delivery over real libp2p streams/pubsub is runtime behaviour replaced by fakes; the pubsubraw adapter is not exercised. Exactly-once assumes duplicate-free snapshots (stated in the theorem).",
         technique="Lean 4 proof (list/bit-vector lemmas; translator for the frame guard) with differential correspondence over scripted transports"),
     "C03": dict(
-        text="Kernel-checked theorem with NO order or honesty hypothesis on incoming content: after any sequence of allowed/denied local appends and joins of arbitrary fetched logs, every listed entry names a writer of the list (or the list is the wildcard), is signed with that writer's key under a genuine identity block, and belongs to the database; a denied local write changes nothing visible. The pinned CanAppend (id only) is refuted by a decide-checked witness that was replayed on the real code before the fix: commit adding VerifyEntryAuthor. The harness builds forged entries with the real entry package and a second signer, measures their flags on the real objects, delivers them by every route, and evaluates the membership predicate on every observation.",
+        text="Kernel-checked theorem with NO order or honesty hypothesis on incoming content: after any sequence of allowed/denied local appends and joins of arbitrary fetched logs, every listed entry names a writer of the list (or the list is the wildcard), is signed with that writer's key under a genuine identity block, and belongs to the database; a denied local write changes nothing visible. The pinned CanAppend (id only) is refuted by a decide-checked witness that was replayed on the real code before the fix: commit adding VerifyEntryAuthor. The harness builds forged entries with the real entry package and a second signer, measures their flags on the real objects, delivers them by every route, and evaluates the membership predicate on every observation; a quarter of the scenarios run under the `simple` access controller (write list passed by every peer at every open) instead of the default `ipfs` one.",
         note="Trusted: Lean kernel + standard axioms; unforgeability of secp256k1 signatures and 'identity block genuine' are represented by measured flags; the hand-written model of Join/CanAppend/Sync validated by correspondence; the replicator's log-id filter is a hypothesis of the reachability relation (its code is exercised by the harness).",
         technique="Lean 4 proof (membership invariant over adversarial reachability) with differential correspondence on forged entries"),
     "C04": dict(
